@@ -43,11 +43,11 @@ SRCS = {
     'pclonedad': (2, False), 'pcopiedad': (2, False), 'pclonedit': (2, False),
     'pconvec': (2, True), 'pconslice': (2, False), 'pconrange': (2, False), 'pconiter': (2, True), 'pconiterpar': (2, True),
     'pconvecpre': (2, True), 'pconslicepre': (2, False), 'pconrangepre': (2, False), 'pconiterpre': (2, True), 'pconiterparpre': (2, True),
-    'sbigvec': (2, False), 'sbigiter': (2, False), 'prangemax': (2, False), 'prangebig': (2, False),
+    'sbigvec': (2, False), 'sbigiter': (2, False), 'prangemax': (2, False), 'prangebig': (2, False), 'pfltcopied': (2, False), 'pfltcloned': (2, False),
     'pbtreemap': (2, False), 'pbtreemapref': (2, False), 'phashmap': (2, False), 'phashmapref': (2, False),
 }
 # sources whose constructor returns an opaque `impl Par` (no ParEmpty, no *_with_index): generic visitor path
-ADAPTORS = {'pclonedad', 'pcopiedad', 'pclonedit'}
+ADAPTORS = {'pclonedad', 'pcopiedad', 'pclonedit', 'pfltcopied', 'pfltcloned'}
 SRC_ENUM = {'svec': 'SVec', 'siter': 'SIter', 'pvec': 'PVec', 'piter': 'PIter', 'sslice': 'SSlice', 'srange': 'SRange',
             'pvecref': 'PVecRef', 'pslice': 'PSlice', 'psliceaspar': 'PSliceAsPar', 'parr3': 'PArr3', 'prange': 'PRange',
             'pdeque': 'PDeque', 'pdequeref': 'PDequeRef', 'plist': 'PList', 'plistref': 'PListRef', 'pbtree': 'PBTree',
@@ -56,7 +56,7 @@ SRC_ENUM = {'svec': 'SVec', 'siter': 'SIter', 'pvec': 'PVec', 'piter': 'PIter', 
             'pconrange': 'PConRange', 'pconiter': 'PConIter', 'pconiterpar': 'PConIterPar', 'pbtreemap': 'PBTreeMap',
             'pbtreemapref': 'PBTreeMapRef', 'phashmap': 'PHashMap', 'phashmapref': 'PHashMapRef',
             'pconvecpre': 'PConVecPre', 'pconslicepre': 'PConSlicePre', 'pconrangepre': 'PConRangePre',
-            'pconiterpre': 'PConIterPre', 'pconiterparpre': 'PConIterParPre', 'sbigvec': 'SBigVec', 'sbigiter': 'SBigIter', 'prangemax': 'PRangeMax', 'prangebig': 'PRangeBig'}
+            'pconiterpre': 'PConIterPre', 'pconiterparpre': 'PConIterParPre', 'sbigvec': 'SBigVec', 'sbigiter': 'SBigIter', 'prangemax': 'PRangeMax', 'prangebig': 'PRangeBig', 'pfltcopied': 'PFltCopied', 'pfltcloned': 'PFltCloned'}
 
 
 def chains():
